@@ -119,6 +119,7 @@ class Ctx:
         self._old = old_heap
         self.locals = locals_ or {}
         self.k = k
+        self._view = None  # heap snapshot this context reads (None: the path's current heap)
 
     def __getattr__(self, name):
         # argument access: ctx.time, ctx.self
@@ -134,12 +135,15 @@ class Ctx:
         return self.locals[name]
 
     def get(self, ref, field):
-        return self.path.heap_get(self.ex, ref, field)
+        return self.path.heap_get(self.ex, ref, field, self._view)
 
     @property
     def old(self):
-        p = self.path.with_heap(self._old if self._old is not None else self.path.entry_heap)
-        return Ctx(self.ex, p, self.args, self._old, self.locals, self.k)
+        c = Ctx(self.ex, self.path, self.args, self._old, self.locals, self.k)
+        c._view = self._old if self._old is not None else self.path.entry_heap
+        if hasattr(self, "pre_args"):
+            c.args = self.pre_args
+        return c
 
     def isinstance(self, ref, cls):
         return self.ex.isinstance_expr(self.path, ref, cls)
